@@ -57,8 +57,10 @@ PROPS = {
     },
     "C03": {
         "lean": ["Stackage.Props.C03"],
-        "streams": [{"name": "capx", "quick": 3000, "thorough": 60000}],
-        "rule": "capx also applies Marshal-into (one Push of the decoded value: capacity and configuration stay). histories hugging the capacity boundary: push batches that partly fit, Insert, Transfer-into, pop/remove/reset then grow again; "
+        "streams": [{"name": "capx", "quick": 3000, "thorough": 60000}, {"name": "sched", "quick": 1500, "thorough": 30000}],
+        "rule": "sched (shared with C10): 2-3 goroutines x 1-3 mutators on mutex-enabled stacks with a capacity within 2 of the length, push policies included, "
+                "every interleaving at lock-acquisition granularity: the final length must be the length of some sequential order (never beyond the capacity). "
+                "capx also applies Marshal-into (one Push of the decoded value: capacity and configuration stay). histories hugging the capacity boundary: push batches that partly fit, Insert, Transfer-into, pop/remove/reset then grow again; "
                 "k in 1..6 (and no capacity), every kind, LIFO/FIFO; Len/Cap/Avail/IsFull and return values compared after every step; "
                 "non-trivial = at least 3 operations of at least 2 kinds",
         "modelled": COMMON_MODELLED,
@@ -398,6 +400,9 @@ def _c13_cond(out):
 def projection(pid, stream):
     if stream == "genfuncs":   # translator self-check: the value itself
         return lambda s: s
+    if pid == "C03" and stream == "sched":
+        # "no sequence of calls ever makes Len exceed k", simultaneous calls included: the final length (and content) of the shared stack
+        return lambda s: " ".join(st for st in s.split(" ; ") if st.startswith("F "))
     if pid == "C13" and stream == "condhist":
         return _c13_cond
     if pid == "C12" and stream == "condhist":
